@@ -169,8 +169,13 @@ def is_fmt_test(test, var):
             and isinstance(test.left, ast.Name) and test.left.id == var)
 
 
+MODULE_CONSTS = {}      # module-level `NAME = <constant tuple/list/str>` of cli.py (filled by extract)
+
+
 def fmt_values(test):
     c = test.comparators[0]
+    if isinstance(c, ast.Name) and c.id in MODULE_CONSTS:
+        c = MODULE_CONSTS[c.id]
     if isinstance(c, ast.Constant):
         return [c.value]
     if isinstance(c, (ast.Tuple, ast.List)):
@@ -257,11 +262,225 @@ def read_sites(funcs, exc_names):
     return sorted(sites)
 
 
+# ------------------------------------------------------------------ what is read is what is loaded
+TEXT_SINK_PARSERS = ('ast.literal_eval', 'json.loads', '_eval_python_full_spec', 'load_func', 'mw_handle_target',
+                     'yaml.safe_load', 'tomllib.loads', 'tomli.loads')
+
+
+def text_flow(funcs):
+    """Follows the target text and the spec text from where they are READ to where they are LOADED.
+
+    transforms: every value assigned to a text variable of mw_get_target / returned by a function of
+    cli.py that delivers text (`_read_stdin`) which is not a plain SOURCE — `None`, a positional
+    argument, a `.read()` of `sys.stdin` / of an `open(<file flag>)` in text mode without further
+    arguments, a call of such a function, the variable itself — and not the `repr(spec_text)` of the
+    first-character rule; augmented assignments, walrus and loop targets included.
+    sinks: (callee, unparsed argument list) of every call that receives a text (the loaders, the
+    parsers, mw_handle_target): the arguments must be the bare variables."""
+    transforms, sinks = [], []
+    mw = funcs.get('mw_get_target')
+    ht = funcs.get('mw_handle_target')
+    if mw is None or ht is None:
+        return [('?', '?', 'mw_get_target / mw_handle_target not found')], []
+
+    def with_vars(fn):
+        out = {}
+        for n in ast.walk(fn):
+            if isinstance(n, ast.With):
+                for it in n.items:
+                    if isinstance(it.optional_vars, ast.Name):
+                        out[it.optional_vars.id] = it.context_expr
+        return out
+
+    def plain_open(call):
+        return (isinstance(call, ast.Call) and isinstance(call.func, ast.Name) and call.func.id == 'open'
+                and len(call.args) == 1 and not call.keywords and isinstance(call.args[0], ast.Name)
+                and call.args[0].id in ('spec_file', 'target_file'))
+
+    def is_source(fn, e, tvars, depth=0):
+        wv = with_vars(fn)
+        if isinstance(e, ast.Constant) and e.value is None:
+            return True
+        if isinstance(e, ast.Name) and (e.id in tvars or e.id == 'posargs_'):
+            return True
+        if isinstance(e, ast.Subscript) and U(e.value) == 'posargs_' and isinstance(e.slice, ast.Constant):
+            return True
+        if isinstance(e, ast.Call) and isinstance(e.func, ast.Attribute) and e.func.attr == 'read' \
+                and not e.args and not e.keywords:
+            r = e.func.value
+            if U(r) == 'sys.stdin':
+                return True
+            if isinstance(r, ast.Name) and r.id in wv and plain_open(wv[r.id]):
+                return True
+            if plain_open(r):
+                return True
+            return False
+        if isinstance(e, ast.Call) and isinstance(e.func, ast.Name) and e.func.id in funcs and not e.args \
+                and not e.keywords and depth < 3:
+            g = funcs[e.func.id]
+            rets = [n for n in ast.walk(g) if isinstance(n, ast.Return)]
+            return bool(rets) and all(r.value is not None and is_source(g, r.value, set(), depth + 1) for r in rets)
+        return False
+
+    def returns_of_text_functions():
+        # functions of cli.py called without arguments to deliver a text: their returns are recorded
+        for n in ast.walk(mw):
+            if isinstance(n, ast.Call) and isinstance(n.func, ast.Name) and n.func.id in funcs and not n.args:
+                g = funcs[n.func.id]
+                for r in ast.walk(g):
+                    if isinstance(r, ast.Return) and not (r.value is not None and is_source(g, r.value, set(), 1)):
+                        transforms.append((g.name, 'return', U(r.value) if r.value is not None else 'None'))
+
+    # the text variables of mw_get_target: what is handed to mw_handle_target / the parsers
+    tvars = set()
+    for n in ast.walk(mw):
+        if isinstance(n, ast.Call) and U(n.func) in TEXT_SINK_PARSERS and n.args and isinstance(n.args[0], ast.Name):
+            tvars.add(n.args[0].id)
+    tvars |= {'spec_text', 'target_text'}
+    for n in ast.walk(mw):
+        pairs = []
+        if isinstance(n, ast.Assign):
+            for t in n.targets:
+                if isinstance(t, ast.Name):
+                    pairs.append((t.id, n.value))
+                elif isinstance(t, ast.Tuple):
+                    if isinstance(n.value, ast.Tuple) and len(n.value.elts) == len(t.elts):
+                        pairs += [(a.id, v) for a, v in zip(t.elts, n.value.elts) if isinstance(a, ast.Name)]
+                    else:
+                        pairs += [(a.id, n.value) for a in t.elts if isinstance(a, ast.Name)]
+        elif isinstance(n, ast.AugAssign) and isinstance(n.target, ast.Name):
+            pairs.append((n.target.id, ast.BinOp(left=n.target, op=n.op, right=n.value)))
+        elif isinstance(n, ast.NamedExpr):
+            pairs.append((n.target.id, n.value))
+        elif isinstance(n, (ast.For, ast.comprehension)) and isinstance(n.target, ast.Name):
+            pairs.append((n.target.id, n.iter))
+        for name, val in pairs:
+            if name not in tvars:
+                continue
+            if is_source(mw, val, tvars):
+                continue
+            if U(val) == 'repr(%s)' % name:        # the first-character rule (its guard is cliReprBranches)
+                continue
+            transforms.append(('mw_get_target', name, U(val)))
+    returns_of_text_functions()
+    # mw_handle_target: its text parameter is never rebound
+    params = [a.arg for a in ht.args.args]
+    for n in ast.walk(ht):
+        tg = []
+        if isinstance(n, ast.Assign):
+            for t in n.targets:
+                tg += [x.id for x in ast.walk(t) if isinstance(x, ast.Name)]
+        elif isinstance(n, (ast.AugAssign, ast.NamedExpr)) and isinstance(n.target, ast.Name):
+            tg.append(n.target.id)
+        for name in tg:
+            if params and name == params[0]:
+                transforms.append(('mw_handle_target', name, U(n.value)))
+    for fn in (mw, ht):
+        for n in ast.walk(fn):
+            if isinstance(n, ast.Call) and U(n.func) in TEXT_SINK_PARSERS:
+                sinks.append((fn.name, U(n.func), ', '.join([U(a) for a in n.args] + ['%s=%s' % (k.arg, U(k.value)) for k in n.keywords])))
+    # every open() of the module: more than the file name (an encoding, an error policy, a newline
+    # mode, a binary mode) changes what "the text of the file" is
+    for fn in funcs.values():
+        for n in ast.walk(fn):
+            if isinstance(n, ast.Call) and isinstance(n.func, ast.Name) and n.func.id == 'open' and not plain_open(n):
+                transforms.append((fn.name, 'open', U(n)))
+    return sorted(set(transforms)), sorted(set(sinks))
+
+
+def name_uses(funcs, names):
+    """(function, name, the smallest enclosing expression / statement head) for every use of the
+    names — how a flag value can influence anything"""
+    out = []
+    for fn in funcs.values():
+        parents = {}
+        for n in ast.walk(fn):
+            for c in ast.iter_child_nodes(n):
+                parents[c] = n
+        for n in ast.walk(fn):
+            if isinstance(n, ast.Name) and n.id in names:
+                p = parents.get(n)
+                while isinstance(p, (ast.BoolOp, ast.UnaryOp)) and p in parents:
+                    p = parents[p]
+                if isinstance(p, (ast.If, ast.While)):
+                    txt = 'test: ' + U(p.test)
+                elif isinstance(p, ast.arguments) or p is None:
+                    continue
+                elif isinstance(p, (ast.FormattedValue, ast.JoinedStr)):
+                    txt = 'message'
+                else:
+                    txt = U(p).split('\n')[0]
+                out.append((fn.name, n.id, txt[:80]))
+    return sorted(set(out))
+
+
+# ------------------------------------------------------------------ the option table face really uses
+def option_table(P):
+    """read off the Command object `glom.cli.get_command()` builds: the flag map as the parser sees it
+    (Command.get_flag_map: the flags the handler and its middlewares depend on, plus flagfile and
+    help), positional-argument limits, subcommands, who receives what"""
+    try:
+        from glom import cli
+        cmd = cli.get_command()
+        fm = cmd.get_flag_map()
+    except Exception as e:
+        P.add('get_command() could not be introspected: %r' % (e,))
+        return None
+
+    def kind(pa):
+        if pa is str:
+            return 'str'
+        if pa is int:
+            return 'int'
+        if not callable(pa):
+            return 'const:' + repr(pa)
+        return '?' + getattr(pa, '__name__', repr(pa))
+
+    flags, keys, seen = [], [], set()
+    for k, f in fm.items():
+        keys.append((k, f.name))
+        if f.name in seen:
+            continue
+        seen.add(f.name)
+        multi = {'_multi_error': 'error', '_multi_extend': 'extend', '_multi_override': 'override'}.get(
+            getattr(f.multi, '__name__', ''), '?' + getattr(f.multi, '__name__', repr(f.multi)))
+        flags.append((f.name, f.char or '', kind(f.parse_as), repr(f.missing), multi))
+    from face.middleware import get_arg_names
+    try:
+        handler = cmd._path_func_map[()]
+        mws = cmd._path_mw_map[()]
+        receivers = [(getattr(handler, '__name__', '?'), list(get_arg_names(handler, only_required=False)))]
+        receivers += [(getattr(m, '__name__', '?'), list(get_arg_names(m, only_required=True))) for m in mws]
+        provides = [(getattr(m, '__name__', '?'), list(m._face_provides)) for m in mws]
+    except Exception as e:
+        P.add('get_command(): handler / middlewares not introspectable: %r' % (e,))
+        receivers, provides = [], []
+    pa, ppa = cmd.posargs, cmd.post_posargs
+    return dict(
+        flags=flags, keys=keys,
+        posargs=[kind(pa.parse_as) if pa.accepts_args else 'none', str(pa.min_count),
+                 'None' if pa.max_count is None else str(pa.max_count), repr(pa.provides)],
+        post_posargs=[kind(ppa.parse_as) if ppa.accepts_args else 'none', str(ppa.min_count),
+                      'None' if ppa.max_count is None else str(ppa.max_count), repr(ppa.provides)],
+        pos_max=-1 if (pa.max_count is None or not pa.accepts_args) else int(pa.max_count),
+        flagfile=cmd.flagfile_flag.name if cmd.flagfile_flag else '',
+        help=cmd.help_handler.flag.name if (cmd.help_handler and cmd.help_handler.flag) else '',
+        subcommands=['/'.join(p) for p in cmd.subprs_map],
+        receivers=receivers, provides=provides)
+
+
 def extract(ctx):
     P = ctx['P']
     tree = ctx['src_tree']('cli.py')
     funcs = {n.name: n for n in tree.body if isinstance(n, ast.FunctionDef)}
     fnames = sorted(funcs)
+    MODULE_CONSTS.clear()
+    for st in tree.body:
+        if isinstance(st, ast.Assign) and len(st.targets) == 1 and isinstance(st.targets[0], ast.Name):
+            v = st.value
+            if isinstance(v, ast.Constant) or (isinstance(v, (ast.Tuple, ast.List))
+                                               and all(isinstance(e, ast.Constant) for e in v.elts)):
+                MODULE_CONSTS[st.targets[0].id] = v
 
     # ---- call / reference graph with guards
     edges = set()
@@ -502,6 +721,11 @@ def extract(ctx):
             if cls != 'OK':
                 raises.append((k, cls, g['mro']))
 
+    transforms, sinks = text_flow(funcs)
+    uses = name_uses(funcs, ('spec_file', 'spec_format'))
+    ot = option_table(P) or dict(flags=[], keys=[], posargs=[], post_posargs=[], pos_max=-1, flagfile='?', help='?',
+                                 subcommands=['?'], receivers=[], provides=[])
+
     S, LS = 'String', 'List String'
     defs = [
         ('cliFunctions', LS, fnames),
@@ -526,7 +750,25 @@ def extract(ctx):
         ('cliShape', LS, cli_shape),
         ('cliMainShape', S, main_shape),
         ('cliMwSteps', LS, mw_steps),
+        # what is read is what is loaded: anything done to a text between its read and its loader / parser
+        ('cliTextTransforms', 'List (String × String × String)', transforms),
+        ('cliTextSinks', 'List (String × String × String)', sinks),
+        # every use of the spec file name and of the spec format
+        ('cliSpecNameUses', 'List (String × String × String)', uses),
+        # the option table of the Command object get_command() builds (introspection, not the AST)
+        ('cliFlagTable', 'List (String × String × String × String × String)', ot['flags']),
+        ('cliFlagKeys', 'List (String × String)', ot['keys']),
+        ('cliPosargs', LS, ot['posargs']),
+        ('cliPostPosargs', LS, ot['post_posargs']),
+        ('cliPosMax', 'Int', ot['pos_max']),
+        ('cliFlagfileFlag', S, ot['flagfile']),
+        ('cliHelpFlag', S, ot['help']),
+        ('cliSubcommands', LS, ot['subcommands']),
+        ('cliReceivers', 'List (String × List String)', ot['receivers']),
+        ('cliProvides', 'List (String × List String)', ot['provides']),
     ]
     return [('C19Facts', 'glom/cli.py: spec_format branches, target loaders, flag defaults, glom_cli shape, '
              'call/reference graph with guards, calls receiving the spec text, handler classes around the '
-             'loader and around every read of text; PROBE of the installed loaders (cliLoaderRaises)', defs)]
+             'loader and around every read of text; PROBE of the installed loaders (cliLoaderRaises); what '
+             'happens to a text between its read and its loader (cliTextTransforms / cliTextSinks); uses of the '
+             'spec file name and spec format; the option table of the Command object face builds', defs)]
